@@ -17,8 +17,10 @@
 // "H stales id.." is the price heap (entries incl. stale/duplicate ones) and the stale counter of the
 // real pool BEFORE the operation (internal bookkeeping state the model is re-synchronised with);
 // <observed> is the implementation's observable line after the operation; its last field
-// "h=stales/entries:live ids" is the price heap AFTER the operation (stale counter, number of entries,
-// the entries of indexed remote txs), which the model predicts from the re-synchronised state.
+// "h=live ids" is the price heap AFTER the operation restricted to the entries of indexed remote txs
+// (duplicates included), which the model predicts from the re-synchronised state.  The stale counter
+// and the number of stale entries are NOT observables: they depend on the map iteration order in
+// which runReorg visits the accounts (a Reheap happens earlier or later).
 // "R k id.." of RESET: the transactions reset() has to reinject at a reorg (old branch minus new branch).  The model driver uses
 // it only to pick the tie-break choices (heap ties / prque ties / heartbeat order) that explain the
 // outcome; it prints the model's own line, which ./check compares with impl.txt.
@@ -515,7 +517,7 @@ func (s *vSnap) line(errs []string) string {
 		}
 		st = b.String()
 	}
-	return fmt.Sprintf("e=%s %s t=%s j=%s sl=%d h=%d/%d:%s", e, s.content(), st, s.journal, s.slots, s.stales, s.heapLen, csvInts(s.heapIDs))
+	return fmt.Sprintf("e=%s %s t=%s j=%s sl=%d h=%s", e, s.content(), st, s.journal, s.slots, csvInts(s.heapIDs))
 }
 
 func (c *vCase) heapLine() string {
